@@ -1,6 +1,7 @@
 import Zc.Proofs.SurviveClock
 import Zc.Proofs.SurviveLive
 import Zc.Proofs.SurviveHandlers
+import Zc.Proofs.NameTextGlue
 /-! # C15 — survival over the closed composite: every block kind, no residual-block hypothesis
 
 `C15_history_all_timers_partial` (`Props/C15.lean`) still assumed, by name: `BaseOK` (user `RecordUpdateListener`s, waking lookup
@@ -19,7 +20,8 @@ record's creation (built into the timer blocks as an enabledness test).  Here:
 * the clock hypothesis is an invariant (`C15_clock_invariant`) of every history whose clock readings do not decrease (`Mono`, the
   `monotone` clause of C12's `LoopAx`); the timer blocks run unguarded.
 
-What is still assumed, all named: `UserOK`, `ApiSafe` of the API arguments, `Mono`, the text-layer identity `TextGlue`; and the
+What is still assumed, all named: `UserOK`, `ApiSafe` of the API arguments, `Mono` (the text-layer identity `TextGlue` is the theorem
+`textGlue` of `Proofs/NameTextGlue.lean` since wp-TEXTGLUE and is no longer a hypothesis); and the
 reading that a `ServiceListener` handler of a browser is an *output* of the model (`COut.callback`), i.e. returns (finding F-U2). -/
 namespace Zc
 open Zc.Wire Zc.Wire.DecodeLib Zc.Survive Zc.Survive.Comp Zc.Survive.Route Zc.Survive.User Zc.Survive.Api Zc.Survive.Closed
@@ -46,7 +48,7 @@ response that the duplicate guard does not drop and that produces at least one r
 registered user listener raises `e` (the listeners before it returning), **`e` leaves `datagram_received`** — nothing between
 `RecordManager.async_updates` and the event loop catches it (and the cache adds, the second round, every browser callback and
 `async_notify_all` of this datagram are skipped).  Observed on the real code: `corpus/C15/finding-user-listener-raises.json`. -/
-theorem C15_user_listener_exception_escapes (glue : TextGlue) {c : Ms} {s : State (CS υ)} (hI : HInv lower ettl Iυ c s)
+theorem C15_user_listener_exception_escapes {c : Ms} {s : State (CS υ)} (hI : HInv lower ettl Iυ c s)
     (data : Bytes) (addr : Addr) (port : Nat) (now : Ms) (draw : Nat) (p : Parsed)
     (hsize : data.length ≤ 8966) (hg : guardHit s data now = false) (hp : (parse data).out = .ok p)
     (hv : p.valid = true) (hq : Gen.Listener.is_query p.hdr.flags = false)
@@ -55,7 +57,6 @@ theorem C15_user_listener_exception_escapes (glue : TextGlue) {c : Ms} {s : Stat
     (pre : List υ) (u : υ) (post : List υ) (e : PyExc) (hr : s.down.rest.1.users = pre ++ u :: post)
     (hpre : ∀ x ∈ pre, ∃ x' o, U.update x now call.1 call.2 = .ok (x', o)) (hu : U.update u now call.1 call.2 = .error e) :
     recv (down lower possible ettl attrib orc U upd) s data addr port now draw = .error e := by
-  have _ := glue
   have heq := recv_response_eq (down lower possible ettl attrib orc U upd) s data addr port now draw p hsize hg hp hv hq
   rw [heq]
   have hing : (down lower possible ettl attrib orc U upd).ingest s.down ⟨data, now, p, none⟩ = .error e := by
@@ -73,12 +74,12 @@ theorem C15_user_listener_exception_escapes (glue : TextGlue) {c : Ms} {s : Stat
 /-- **Every residual block is total and keeps the invariant** — registration (`register` / `update` / `unregister` / a transmission of
 the broadcast task), browser start (purge with notifications, replay, scheduler bookkeeping), scheduler start, browser cancel, lookup
 start (cache load) and finish, the periodic purge (both listener rounds), user-listener and future bookkeeping.  This is the former
-hypothesis `hO`.  Assumed: `UserOK` (purge and browser start call the user listeners), the text-layer identity, and `ApiSafe` of the
+hypothesis `hO`.  Assumed: `UserOK` (purge and browser start call the user listeners) and `ApiSafe` of the
 block's own argument. -/
-theorem C15_api_block_total (glue : TextGlue) (hU : UserOK U Iυ) {d : CS υ} (hI : Full lower ettl Iυ d) (b : ApiBlock υ)
+theorem C15_api_block_total (hU : UserOK U Iυ) {d : CS υ} (hI : Full lower ettl Iυ d) (b : ApiBlock υ)
     (hb : ApiSafe lower ettl Iυ b) :
     ∃ d' o, apiStep lower possible U upd d b = .ok (d', o) ∧ Full lower ettl Iυ d' :=
-  let ⟨d', o, h, hI', _⟩ := apiStep_ok lower possible ettl U upd Iυ glue hU hI b hb
+  let ⟨d', o, h, hI', _⟩ := apiStep_ok lower possible ettl U upd Iυ textGlue hU hI b hb
   ⟨d', o, h, hI'⟩
 
 /-- under the data invariant a transmission of the registration / goodbye task always encodes: the broadcast task cannot die of an
@@ -88,13 +89,13 @@ theorem C15_service_broadcast_encodes {d : CS υ} (hI : Full lower ettl Iυ d) (
 
 /-- **The clock hypothesis is an invariant.**  After any closed history whose clock readings do not decrease, no cached record object
 (in either index) was created after the last reading: records are stamped with their block's `now`. -/
-theorem C15_clock_invariant (glue : TextGlue) (hU : UserOK U Iυ) (bs : List (HBlock υ)) (c : Ms) (s s' : State (CS υ))
+theorem C15_clock_invariant (hU : UserOK U Iυ) (bs : List (HBlock υ)) (c : Ms) (s s' : State (CS υ))
     (out : List (Out (COut ω))) (hI : HInv lower ettl Iυ c s) (hm : Mono c bs) (hs : ∀ b ∈ bs, HSafe lower ettl Iυ b)
     (h : hrun lower possible ettl attrib orc sz U upd s bs = .ok (s', out)) :
     ∀ r ∈ s'.down.cache.allRecs, r.created ≤ lastTime c bs :=
-  (hrun_inv lower possible ettl sz U upd Iυ glue hU (down_closed lower possible ettl attrib orc U upd Iυ glue hU) bs c s s' out hI hm hs h).clock.allRecs
+  (hrun_inv lower possible ettl sz U upd Iυ textGlue hU (down_closed lower possible ettl attrib orc U upd Iυ textGlue hU) bs c s s' out hI hm hs h).clock.allRecs
 
-/-- **Survival, every history, every block kind** (`_partial`: `UserOK`, `ApiSafe` of the API arguments, `Mono`, `TextGlue`).  From
+/-- **Survival, every history, every block kind** (`_partial`: `UserOK`, `ApiSafe` of the API arguments, `Mono`).  From
 any state satisfying the invariant — e.g. the initial one — every finite interleaving of
 
 * datagram arrivals (any bytes, any source address and port, any draw),
@@ -106,12 +107,12 @@ any state satisfying the invariant — e.g. the initial one — every finite int
 whose clock readings do not decrease runs to its end **without an exception reaching the event loop** and with the invariant in
 force at the last clock reading — or it contains a deferred-query timer block for an address whose timer is not armed at that point
 (not a block the loop can run).  No hypothesis is made about any intermediate state or about any block preserving anything. -/
-theorem C15_history_closed_partial (glue : TextGlue) (hU : UserOK U Iυ) (bs : List (HBlock υ)) (c : Ms) (s : State (CS υ))
+theorem C15_history_closed_partial (hU : UserOK U Iυ) (bs : List (HBlock υ)) (c : Ms) (s : State (CS υ))
     (hI : HInv lower ettl Iυ c s) (hm : Mono c bs) (hs : ∀ b ∈ bs, HSafe lower ettl Iυ b) :
     (∃ s' out, hrun lower possible ettl attrib orc sz U upd s bs = .ok (s', out) ∧ HInv lower ettl Iυ (lastTime c bs) s') ∨
     (∃ pre addr post s1 o1, bs = pre ++ HBlock.tcFire addr :: post ∧
       hrun lower possible ettl attrib orc sz U upd s pre = .ok (s1, o1) ∧ alGet addr s1.timers = none) :=
-  hrun_ok lower possible ettl sz U upd Iυ glue hU (down_closed lower possible ettl attrib orc U upd Iυ glue hU) bs c s hI hm hs
+  hrun_ok lower possible ettl sz U upd Iυ textGlue hU (down_closed lower possible ettl attrib orc U upd Iυ textGlue hU) bs c s hI hm hs
 
 /-- the initial state of a started instance — empty cache, registry, queues, histories, no browsers, lookups, listeners or futures —
 satisfies the invariant at every clock reading -/
@@ -147,8 +148,8 @@ example : ¬ UserOK exBadUser (fun _ => True) := by
 /-- the type `_a._tcp.local.` as the text of a wire name -/
 def exTypeA : String := textOfName [[95, 97], [95, 116, 99, 112], [108, 111, 99, 97, 108]]
 
-theorem exTypeA_safe (glue : TextGlue) : NameTextSafe exTypeA :=
-  fromWire_safe glue ⟨_, by decide +kernel, by decide +kernel, rfl⟩
+theorem exTypeA_safe : NameTextSafe exTypeA :=
+  fromWire_safe textGlue ⟨_, by decide +kernel, by decide +kernel, rfl⟩
 
 /-- a history with blocks of several kinds — a purge, a datagram, a browser start for `_a._tcp.local.`, its scheduler start, a lookup
 start, a second purge — has non-decreasing clock readings and safe API arguments -/
@@ -160,26 +161,31 @@ def exHistory : List (HBlock Nat) :=
 example : Mono 0 exHistory :=
   ⟨by decide, by decide, by decide, by decide, by decide, by decide, trivial⟩
 
-example (glue : TextGlue) (lower : String → String) (ettl : Nat) : ∀ b ∈ exHistory, HSafe lower ettl (fun _ : Nat => True) b := by
+example (lower : String → String) (ettl : Nat) : ∀ b ∈ exHistory, HSafe lower ettl (fun _ : Nat => True) b := by
   intro b hb
   simp only [exHistory, List.mem_cons, List.not_mem_nil, or_false] at hb
   rcases hb with rfl | rfl | rfl | rfl | rfl | rfl | rfl | rfl
   all_goals first
     | trivial
-    | (show TypesSafe [exTypeA]; intro t ht; simp only [List.mem_singleton] at ht; subst ht; exact exTypeA_safe glue)
-    | exact exTypeA_safe glue
+    | (show TypesSafe [exTypeA]; intro t ht; simp only [List.mem_singleton] at ht; subst ht; exact exTypeA_safe)
+    | exact exTypeA_safe
 
-/-- a service all of whose names are texts of encodable wire names satisfies `SvcSafe` (for `lower = id`; the enumeration name
-`_services._dns-sd._udp.local.` is a string literal of the model, its safety is the one fact about `labelsOfText` this example takes) -/
+/-- a service all of whose names are texts of encodable wire names satisfies `SvcSafe` (for `lower = id`) -/
 def exSvcSafe : Svc :=
   { type := exTypeA, name := textOfName [[120], [95, 97], [95, 116, 99, 112], [108, 111, 99, 97, 108]],
     server := textOfName [[104, 49], [108, 111, 99, 97, 108]], port := 80, weight := 0, priority := 0, text := [3, 107, 61, 118],
     hostTtl := 120, otherTtl := 4500, v4 := [[10, 0, 0, 1]], v6 := [] }
 
-theorem exSvcSafe_safe (glue : TextGlue) (henum : NameTextSafe RespSpec.enumName) : SvcSafe id 4500 exSvcSafe := by
-  have hT : NameTextSafe exSvcSafe.type := exTypeA_safe glue
-  have hN : NameTextSafe exSvcSafe.name := fromWire_safe glue ⟨_, by decide +kernel, by decide +kernel, rfl⟩
-  have hS : NameTextSafe exSvcSafe.server := fromWire_safe glue ⟨_, by decide +kernel, by decide +kernel, rfl⟩
+/-- the enumeration name `_services._dns-sd._udp.local.` is encodable (kernel-evaluated through the text layer) -/
+theorem enumName_safe : NameTextSafe RespSpec.enumName := by
+  unfold NameTextSafe labelsOfText
+  decide +kernel
+
+theorem exSvcSafe_safe : SvcSafe id 4500 exSvcSafe := by
+  have henum := enumName_safe
+  have hT : NameTextSafe exSvcSafe.type := exTypeA_safe
+  have hN : NameTextSafe exSvcSafe.name := fromWire_safe textGlue ⟨_, by decide +kernel, by decide +kernel, rfl⟩
+  have hS : NameTextSafe exSvcSafe.server := fromWire_safe textGlue ⟨_, by decide +kernel, by decide +kernel, rfl⟩
   intro r hr
   simp only [RespSpec.own, RespSpec.enumPtr, RespSpec.ptrOf, RespSpec.srvOf, RespSpec.txtOf, RespSpec.addrsOf, RespSpec.nsecOf,
     RespSpec.missing, exSvcSafe, List.map_cons, List.map_nil, List.isEmpty_cons, List.isEmpty_nil, List.cons_append, List.nil_append,
@@ -210,7 +216,7 @@ def exEmpty : CS Nat := ⟨{}, [], [], [], {}, [], [], none, ({}, {})⟩
 abbrev exRun (s : State (CS Nat)) (bs : List (HBlock Nat)) :=
   hrun id possibleTypes 4500 (fun _ _ => true) (fun _ t => (20, 20, t)) (fun _ => 0) exUser (fun _ _ _ => false) s bs
 
-theorem C15_populated_instance (glue : TextGlue) (henum : NameTextSafe RespSpec.enumName) :
+theorem C15_populated_instance :
     ∃ s out, exRun (State.init exEmpty) exPopulate = .ok (s, out) ∧ HInv id 4500 (fun _ : Nat => True) 40 s ∧
       s.down.reg.services.length = 1 ∧ s.down.reg.hasEntries = true ∧ s.down.browsers.length = 1 ∧ s.down.scheds.length = 1 ∧
       s.down.lookups.length = 1 ∧ s.down.rest.1.users.length = 1 := by
@@ -222,11 +228,11 @@ theorem C15_populated_instance (glue : TextGlue) (henum : NameTextSafe RespSpec.
     intro b hb
     simp only [exPopulate, List.mem_cons, List.not_mem_nil, or_false] at hb
     rcases hb with rfl | rfl | rfl | rfl | rfl
-    · exact exSvcSafe_safe glue henum
+    · exact exSvcSafe_safe
     · show TypesSafe [exTypeA]
-      intro t ht; simp only [List.mem_singleton] at ht; subst ht; exact exTypeA_safe glue
+      intro t ht; simp only [List.mem_singleton] at ht; subst ht; exact exTypeA_safe
     · trivial
-    · exact exTypeA_safe glue
+    · exact exTypeA_safe
     · trivial
   have hmono : Mono 0 exPopulate := ⟨by decide, by decide, by decide, trivial⟩
   cases hr : exRun (State.init exEmpty) exPopulate with
@@ -236,8 +242,8 @@ theorem C15_populated_instance (glue : TextGlue) (henum : NameTextSafe RespSpec.
     rw [hr] at hev
     simp only [Prod.mk.injEq] at hev
     have hUok : UserOK exUser (fun _ : Nat => True) := ⟨fun u _ _ _ _ => ⟨u + 1, _, rfl, trivial⟩, fun u _ _ => ⟨u, _, rfl, trivial⟩⟩
-    have hI := hrun_inv id possibleTypes 4500 (fun _ => 0) exUser (fun _ _ _ => false) (fun _ : Nat => True) glue hUok
-      (down_closed id possibleTypes 4500 (fun _ _ => true) (fun _ t => (20, 20, t)) exUser (fun _ _ _ => false) (fun _ : Nat => True) glue hUok)
+    have hI := hrun_inv id possibleTypes 4500 (fun _ => 0) exUser (fun _ _ _ => false) (fun _ : Nat => True) textGlue hUok
+      (down_closed id possibleTypes 4500 (fun _ _ => true) (fun _ t => (20, 20, t)) exUser (fun _ _ _ => false) (fun _ : Nat => True) textGlue hUok)
       exPopulate 0 (State.init exEmpty) s out (C15_closed_init id 4500 (fun _ : Nat => True) 0) hmono hsafe hr
     exact ⟨s, out, rfl, hI, hev.1, hev.2.1, hev.2.2.1, hev.2.2.2.1, hev.2.2.2.2.1, hev.2.2.2.2.2⟩
 
@@ -250,22 +256,30 @@ application code called from inside `datagram_received` with no containment (`Si
 `async_update_records_complete` (handlers as a parameter, `Model/SurviveHandlers.completeE`) is exactly C04's `Browser.complete`
 that the composite runs. -/
 theorem C15_handlers_return_is_the_model {h : Handlers.Handler} (hok : Handlers.HandlersOK h) (b : Browser) :
-    Handlers.completeE h b = .ok (Browser.complete b) :=
+    Handlers.completeE h b = ((Browser.complete b).1, .ok (Browser.complete b).2) :=
   Handlers.completeE_eq_complete hok b
 
-/-- **and when a handler raises the browser is wedged** (finding F-U2; not a theorem about the composite, about the code's
-`async_update_records_complete`): if the handlers raise for `Added(t, n)` while that event is pending, the call raises — out of
-`async_updates_complete`, `async_updates_from_response`, `datagram_received` — and, because `_pending_handlers.clear()` is skipped
-and nothing overwrites a pending `Added`, **every later call raises again**, whatever updates arrive in between. -/
-theorem C15_raising_handler_wedges_browser (lower : String → String) (possible : String → List String)
+/-- **before the D24b repair (aa04e95) a raising handler wedged its browser** (F-U2; a theorem about the old
+`async_update_records_complete`, `Handlers.completeBeforeD24b`): if the handlers raise for `Added(t, n)` while that event is pending,
+the call raised — out of `async_updates_complete`, `async_updates_from_response`, `datagram_received` — left `_pending_handlers` as it
+was and, since nothing overwrites a pending `Added`, **every later call raised again**, whatever updates arrived in between. -/
+theorem C15_raising_handler_wedged_browser_before_fix (lower : String → String) (possible : String → List String)
     {h : Handlers.Handler} {t n : String} (hraise : ∃ e, h ⟨.added, t, n⟩ = .error e) {b : Browser}
     (hp : Handlers.PendingAdded (n, t) b) :
-    (∃ e, Handlers.completeE h b = .error e) ∧
+    ((Handlers.completeBeforeD24b h b).1 = b ∧ ∃ e, (Handlers.completeBeforeD24b h b).2 = .error e) ∧
     ∀ rounds : List (Cache × Ms × List (Rec × Option Rec)),
-      ∃ e, Handlers.completeE h (rounds.foldl (fun b r => Browser.updateRecords lower possible r.1 r.2.1 b r.2.2) b) = .error e :=
-  Handlers.raising_handler_wedges lower possible hraise hp
+      ∃ e, (Handlers.completeBeforeD24b h (rounds.foldl (fun b r => Browser.updateRecords lower possible r.1 r.2.1 b r.2.2) b)).2 = .error e :=
+  Handlers.raising_handler_wedged_before_fix lower possible hraise hp
 
-/-- the hypothesis is satisfiable and the wedge is real: a handler that raises for one name only -/
+/-- **since the repair it raises once**: the dict is detached before the first handler runs, so the call that fires the event raises
+(user code: outside the property's quantifier) and the event is gone — the browser goes on receiving every later event
+(`corpus/C15/d24b-browser-handler-raises-once.json` replays it on the real code and reports a violation should the wedge return). -/
+theorem C15_raising_handler_raises_once {h : Handlers.Handler} {t n : String} (hraise : ∃ e, h ⟨.added, t, n⟩ = .error e) {b : Browser}
+    (hp : Handlers.PendingAdded (n, t) b) :
+    (∃ e, (Handlers.completeE h b).2 = .error e) ∧ ¬ Handlers.PendingAdded (n, t) (Handlers.completeE h b).1 :=
+  Handlers.raising_handler_raises_once hraise hp
+
+/-- the hypothesis is satisfiable and can fail: a handler that raises for one name only, with that event pending -/
 example : ∃ h : Handlers.Handler, ¬ Handlers.HandlersOK h ∧
     Handlers.PendingAdded ("evil._b._tcp.local.", "_b._tcp.local.")
       (({ types := ["_b._tcp.local."] } : Browser).enqueue .added "_b._tcp.local." "evil._b._tcp.local.") :=
@@ -295,11 +309,11 @@ variable (lower : String → String) (possible : String → List String) (ettl :
 variable (attrib : Question → Rec → Bool) (orc : Route.Oracle) (sz : QueryGen.QOut → Nat)
 variable {υ ω : Type} (U : UserL υ ω) (upd : Ms → List (Rec × Option Rec) → Nat → Bool) (Iυ : υ → Prop)
 
-/-- **An announcement sent after any closed history still reaches its browsers** (`_partial`: `UserOK`, `ApiSafe`, `Mono`, `TextGlue`).
+/-- **An announcement sent after any closed history still reaches its browsers** (`_partial`: `UserOK`, `ApiSafe`, `Mono`).
 After ANY history of blocks of every kind: a valid response of at most 8966 bytes that the duplicate guard does not drop and that
 carries a pointer record alive after the PTR TTL floor, not cached, whose owner matches a type `t` browsed by a registered browser
 makes `datagram_received` return normally with that browser's `Added(t, alias)` callback among the block's outputs. -/
-theorem C15_announcement_reaches_browser_closed_partial (glue : TextGlue) (hU : UserOK U Iυ) (bs : List (HBlock υ)) (c : Ms)
+theorem C15_announcement_reaches_browser_closed_partial (hU : UserOK U Iυ) (bs : List (HBlock υ)) (c : Ms)
     (s0 s1 : State (CS υ)) (o1 : List (Out (COut ω)))
     (hI : HInv lower ettl Iυ c s0) (hm : Mono c bs) (hs : ∀ b ∈ bs, HSafe lower ettl Iυ b)
     (hrun' : hrun lower possible ettl attrib orc sz U upd s0 bs = .ok (s1, o1))
@@ -313,7 +327,7 @@ theorem C15_announcement_reaches_browser_closed_partial (glue : TextGlue) (hU : 
     {b : Browser} (hb : b ∈ s1.down.browsers) (ht : t ∈ b.types) (hposs : (possible w.name).contains t = true) :
     ∃ s' out i, recv (down lower possible ettl attrib orc U upd) s1 data addr port now draw = .ok (s', out, .response) ∧
       Out.down (COut.callback i ⟨.added, t, alias⟩) ∈ out := by
-  have hI1 := hrun_inv lower possible ettl sz U upd Iυ glue hU (down_closed lower possible ettl attrib orc U upd Iυ glue hU) bs c s0 s1 o1 hI hm hs hrun'
+  have hI1 := hrun_inv lower possible ettl sz U upd Iυ textGlue hU (down_closed lower possible ettl attrib orc U upd Iυ textGlue hU) bs c s0 s1 o1 hI hm hs hrun'
   obtain ⟨p', hp', hk⟩ := parse_pkt data now hsize
   rw [hp] at hp'
   cases hp'
